@@ -20,9 +20,9 @@ package main
 //
 // What no longer rests on the correspondence alone: for the text ast/node.go's String() writes
 // (minimal parentheses, the printer's spacing) the chain string -> items (scanner model) -> tree
-// (parser model) -> value is a theorem (C01_text_string_to_value_partial).  Still by this
-// oracle only: other spellings of the same tree (spacing, redundant parentheses, hex, escapes),
-// the 28 statement-level positions, and the walker on the parser's POSITIONED tree.
+// (parser model) -> compiled tree -> value (walker model on the parser's own, positioned tree) is
+// a theorem (C01_text_string_to_value).  Still by this oracle only: other spellings of the same
+// tree (spacing, redundant parentheses, hex, escapes) and the 28 statement-level positions.
 
 import (
 	"encoding/json"
